@@ -74,7 +74,17 @@ def _work(idx):
     return r
 
 
-def run_contracts(repo_src, verif, sidecars, select, tier, seed, jobs):
+def _unstable(r, ledger):
+    """A contract whose set of generated obligations differs from the committed ledger although none failed."""
+    if not ledger or r['status'] == 'failed':
+        return False
+    prefix = f"{r['sidecar'].split('.')[-1]}.{r['contract']}#"
+    have = {prefix + o['id'] for o in r.get('obligations', [])}
+    want = {k for k in ledger if k.startswith(prefix)}
+    return bool(want) and not want <= have
+
+
+def run_contracts(repo_src, verif, sidecars, select, tier, seed, jobs, ledger=None):
     global _ENGINE, _CFG
     e, load_errors = _load_engine(repo_src, verif, sidecars)
     _ENGINE = e
@@ -89,6 +99,20 @@ def run_contracts(repo_src, verif, sidecars, select, tier, seed, jobs):
             results = pool.map(_work, idxs, chunksize=1)
     else:
         results = [_work(i) for i in idxs]
+    # Solver budgets are wall-clock: with all cores busy an obligation may come back `unknown` (or a contract may crash on a
+    # path that a timed-out feasibility query failed to prune).  Such contracts are re-run once, alone, with a tripled budget;
+    # verdicts `failed` (counter-model found) are never re-run.
+    redo = [k for k, r in enumerate(results) if r['status'] in ('undecided', 'crash', 'contract-error') or _unstable(r, ledger)]
+    if redo:
+        _CFG['timeout_ms'] *= 3
+        from .values import CTX
+        CTX.branch_timeout_ms *= 3
+        for k in redo:
+            first = results[k]
+            results[k] = _work(idxs[k])
+            results[k]['rerun_after'] = first['status']
+        CTX.branch_timeout_ms //= 3
+        _CFG['timeout_ms'] //= 3
     return e, results, load_errors
 
 
@@ -114,7 +138,7 @@ def check_property(pid, tier, seed, repo_src, verif, jobs=16, only=None, verbose
 
     def select(c):
         return pid in c['props'] and (only is None or c['name'] in only)
-    e, results, load_errors = run_contracts(repo_src, verif, spec['sidecars'], select, tier, seed, jobs)
+    e, results, load_errors = run_contracts(repo_src, verif, spec['sidecars'], select, tier, seed, jobs, ledger=ledger)
 
     violations, undecided, crashes, kf_lines = [], [], [], []
     detail = {}
